@@ -410,6 +410,15 @@ func c02main(c *Ctx) {
 		L := gen.Pick(r, builtinLevels)
 		lg.SetLevel(L)
 		is.SetDebugMode(false)
+		// some OTHER logger of the process was put at Debug level: that switches the process-wide debug mode on (a documented,
+		// sticky side effect; it admits the Debug severity everywhere) - a call still produces ITS record and nothing else
+		debugOn := r.P(12)
+		if debugOn {
+			slog.New("debug-elsewhere").SetLevel(slog.DebugLevel)
+			defer is.SetDebugMode(false)
+			slog.SetDefault(lg) // (the logger under test is also the process's default logger: what the library itself has to say goes to ITS devices)
+			c.R.Add("calls_while_the_process_wide_debug_mode_is_on", 1)
+		}
 		deep := false
 		if r.P(6) && L != slog.OffLevel && !defaultDev {
 			// a logger deep down a chain (every level with an attribute of its own)
@@ -465,8 +474,16 @@ func c02main(c *Ctx) {
 		var adesc []string
 		switch x := r.Intn(100); {
 		case x < 8: // Println / pkg.Println variants
-			mode = gen.Pick(r, []string{"Println()", "Println(str,...)", "Println(nonstring,...)", "pkg.Println()", "pkg.Println(str,...)", "pkg.Println(nonstring,...)"})
+			mode = gen.Pick(r, []string{"Println()", "Println(str,...)", "Println(nonstring,...)", "pkg.Println()", "pkg.Println(str,...)", "pkg.Println(nonstring,...)",
+				// lines through a std log bridge built on the logger - an EMPTY line included - and the bridge's own entry point
+				"bridge.Println() at Always", "bridge.Print(\"\") at Info", "bridge.Print(msg) at Warn"})
 			sev = slog.AlwaysLevel
+			switch mode {
+			case "bridge.Print(\"\") at Info":
+				sev = slog.InfoLevel
+			case "bridge.Print(msg) at Warn":
+				sev = slog.WarnLevel
+			}
 		case x < 14: // blank Print
 			mode = "blank"
 			sev = slog.AlwaysLevel
@@ -544,6 +561,14 @@ func c02main(c *Ctx) {
 				first := gen.Pick(r, []any{42, nil, 3.5, []byte("x"), struct{ A int }{7}, fmt.Errorf("e"), slog.InfoLevel})
 				slog.Println(append([]any{first}, args...)...)
 				id, pkgCall = "", true
+			case "bridge.Println() at Always":
+				slog.NewLogLogger(lg, slog.AlwaysLevel).Println()
+				blank = true
+			case "bridge.Print(\"\") at Info":
+				slog.NewLogLogger(lg, slog.InfoLevel).Print("")
+				id = ""
+			case "bridge.Print(msg) at Warn":
+				slog.NewLogLogger(lg, slog.WarnLevel).Print(msg)
 			case "blank":
 				if r.Bool() {
 					lg.Print(msg, args...)
@@ -574,7 +599,7 @@ func c02main(c *Ctx) {
 		for k, v := range builtinTreatAs {
 			treat[k] = v
 		}
-		adm := admit(L, sev, false, treat)
+		adm := admit(L, sev, debugOn, treat)
 		// expected destinations
 		var sel []int
 		if ws := d.perLevel[sev]; len(ws) > 0 {
